@@ -13,8 +13,8 @@ One specification per property, three uses of TLC each:
 import json, os, re, concurrent.futures as cf
 from vlib import Infra, log, read_ndjson, write_ndjson
 
-PATH_SHAPES = list(range(1, 14))
-ALL_DATA_SHAPES = list(range(1, 59))
+PATH_SHAPES = list(range(1, 15))
+ALL_DATA_SHAPES = list(range(1, 62))
 
 
 def set_lit(xs):
@@ -295,8 +295,8 @@ def run_c18(ctx):
     ctx.build(["dv"])
     q = ctx.quick()
     DATA_SHAPES = [s for s in ALL_DATA_SHAPES if not (q and s in (55, 58))]   # quick: two of the four list-hosted nested-default shapes
-    me, ml = 3, 3
-    wide = [5, 7, 12, 15] if q else [s for s in DATA_SHAPES if s not in (6, 11, 14, 18) and s < 19]     # shapes explored with 3 list entries (the others with 2)
+    me, ml = 3, 3        # (shape 61 is wide: its list and leaf-list go to 3; MaxLL is 3 for all)
+    wide = [5, 7, 12, 15, 61] if q else [s for s in DATA_SHAPES if (s not in (6, 11, 14, 18) and s < 19) or s == 61]     # shapes explored with 3 list entries (the others with 2)
     nrand, nmut = (600, 4) if q else (2000, 6)
     def corrupt(ev):
         ev["errs"] = ev["errs"] + [dict(t="exec", k="", n="", path=["no-such-node"])]
